@@ -436,4 +436,31 @@ pub fn run_c15(out: &mut Out, seed: u64, thorough: bool) {
         }
     }
     out.sample("spec.cost 180 - <steps> <ram accesses>  (MUL R0,R1)".into());
+    // history independence: a program loaded (or the machine reset) after ANY number of clock edges of an earlier
+    // run - in the middle of an instruction, in a memory wait cycle - then takes exactly the edges a fresh machine
+    // takes: the state is compared after every single edge that follows the reload
+    let n_hist = if thorough { 60 } else { 8 };
+    for case in 0..n_hist {
+        let first = crate::c_mach::scenario_image(&mut rng);
+        let second = if case % 2 == 0 { first.clone() } else { crate::c_mach::scenario_image(&mut rng) };
+        let max_r = if thorough { 70 } else { 26 };
+        for r in 0..max_r {
+            let mut s = Sess::new();
+            run_line(out, &mut s, "new");
+            run_line(out, &mut s, &format!("load 16 255 {}", hexs(&first)));
+            run_line(out, &mut s, &format!("edges {}", r));
+            // the property as a relation on the real machine: reloaded here vs loaded into a new machine, edge by edge
+            run_line(out, &mut s, &format!("{} 16 255 {} 60", if (case / 2) % 3 == 1 { "spec.resetasm" } else { "spec.reload" }, hexs(&second)));
+            match (case / 2) % 3 {
+                0 => { run_line(out, &mut s, &format!("load 16 255 {}", hexs(&second))); }
+                1 => { run_line(out, &mut s, "masterreset"); run_line(out, &mut s, &format!("load 16 255 {}", hexs(&second))); }
+                _ => { run_line(out, &mut s, "cpureset"); }
+            }
+            for _ in 0..14 {
+                run_line(out, &mut s, "edge");
+                run_line(out, &mut s, "d");
+            }
+            out.count("reload-after-r-edges");
+        }
+    }
 }
